@@ -190,5 +190,39 @@ def gatherRatios (isectOrig isectRemaining origSize matchSize matchSizeArg : Nat
     fUniqueToQuery := lit isectRemaining / lit origSize
     fMatch := lit matchSizeArg / lit matchSize }
 
+/-! ### the sketches `calculate_gather_stats` compares
+
+The function receives the match sketch at its own `scaled` and brings it to the query's:
+`match_mh.clone().downsample_scaled(remaining_query.scaled())`.  Everything after that line — the
+intersections, the four ratios, `ksize`, and inside `if calc_ani_ci` also `scaled()` and
+`n_unique_kmers()` — is read from the **downsampled** sketch.  (`scaled()` of a sketch is
+`scaled_for_max_hash(max_hash_for_scaled(s))`, which is `s` again: property C14.) -/
+
+/-- `|a ∩ b|` for two duplicate-free hash lists -/
+def isectSize (a b : List Nat) : Nat := (a.filter fun x => b.contains x).length
+
+/-- contents of a scaled sketch after `add_hash` of every element of `hs` (sorted, duplicate-free
+input): `hash > max_hash` is ignored -/
+def sketchOf (maxHash : Nat) (hs : List Nat) : List Nat := hs.filter (· ≤ maxHash)
+
+/-- `KmerMinHash::downsample_scaled` on the match: `Ok(self)` for an equal scaled, otherwise a new
+sketch at the coarser scaled filled by `add_many` (the caller has excluded the `Err` branch) -/
+def downsampleTo (maxHashQ qScaled mScaled : Nat) (mat : List Nat) : List Nat :=
+  if mScaled = qScaled then mat else sketchOf maxHashQ mat
+
+/-- ANI-related output of `calculate_gather_stats` for a query at `qScaled` (`maxHashQ` its
+`max_hash`) and a match sketch `mat` at `mScaled`; `none` = `Err(CannotUpsampleScaled)`.
+The third component is the `n_unique_kmers` handed to the interval function. -/
+def gatherStatsAni (ci : α → Nat → Nat → Nat → Option α → α × α)
+    (maxHashQ k qScaled mScaled : Nat) (orig remaining mat : List Nat) (matchSizeArg : Nat)
+    (calcCi : Bool) (conf : Option α) : Option (GatherRatios α × GatherAni α × Nat) :=
+  if mScaled > qScaled then none
+  else
+    let m := downsampleTo maxHashQ qScaled mScaled mat
+    let r : GatherRatios α :=
+      gatherRatios (isectSize m orig) (isectSize m remaining) orig.length m.length matchSizeArg
+    let nu := nUniqueKmers m.length qScaled
+    some (r, gatherAni ci r k qScaled nu calcCi conf, nu)
+
 end
 end Sourmash.Ani
